@@ -247,6 +247,51 @@ theorem eval_rename {α : Type} (A : Alg α) (ρ ρ' : Env α) (f : Name → Nam
     | call g e => simp [rename, eval]
     | der e => simp [rename, eval]
 
+/-! ## literals -/
+
+theorem tokLits_append (a b : List Tok) : tokLits (a ++ b) = tokLits a ++ tokLits b := by
+  induction a with
+  | nil => rfl
+  | cons t a ih =>
+    cases t with
+    | atom x => cases x <;> simp [tokLits, ih]
+    | bop _ => simp [tokLits, ih]
+    | pop _ => simp [tokLits, ih]
+    | lp => simp [tokLits, ih]
+    | rp => simp [tokLits, ih]
+    | fn _ => simp [tokLits, ih]
+    | diff => simp [tokLits, ih]
+
+theorem tokLits_wrapIf (b : Bool) (ts : List Tok) : tokLits (wrapIf b ts) = tokLits ts := by
+  cases b <;> simp [wrapIf, tokLits, tokLits_append]
+
+theorem lits_rename (f : Name → Name) : ∀ e : E, lits (rename f e) = lits e := by
+  intro e
+  induction e with
+  | atom a => cases a <;> simp [rename, lits]
+  | bin o l r ihl ihr => simp [rename, lits, ihl, ihr]
+  | pre q e ih => simp [rename, lits, ih]
+  | call g e ih => simp [rename, lits, ih]
+  | der e ih => simp [rename, lits, ih]
+
+theorem tokLits_prFix : ∀ e : E, tokLits (prFix e) = lits e := by
+  intro e
+  induction e with
+  | atom a => cases a <;> simp [prFix, lits, tokLits]
+  | bin o l r ihl ihr => simp [prFix, lits, tokLits, tokLits_append, tokLits_wrapIf, ihl, ihr]
+  | pre q e ih => simp [prFix, lits, tokLits, tokLits_wrapIf, ih]
+  | call g e ih => simp [prFix, lits, tokLits, tokLits_append, ih]
+  | der e ih => simp [prFix, lits, tokLits, tokLits_append, ih]
+
+theorem tokLits_prCur : ∀ e : E, tokLits (prCur e) = lits e := by
+  intro e
+  induction e with
+  | atom a => cases a <;> simp [prCur, lits, tokLits]
+  | bin o l r ihl ihr => simp [prCur, lits, tokLits, tokLits_append, ihl, ihr]
+  | pre q e ih => simp [prCur, lits, tokLits, ih]
+  | call g e ih => simp [prCur, lits, tokLits, tokLits_append, ih]
+  | der e ih => simp [prCur, lits, tokLits, tokLits_append, ih]
+
 /-! ## classification -/
 
 theorem filter_eq_map_const {k : String} {l : List String} (h : l.Nodup) {β : Type} (b : β) :
